@@ -232,6 +232,10 @@ func literalCallThoughtfulReduceChainMiddleware(next _LiteralCallMiddlewareHandl
 				// replace evaluated value with last acc
 				continue
 			}
+			if evaluated.Type() == object.NilType {
+				// replace evaluated nil with last acc
+				continue
+			}
 			acc = evaluated
 		}
 
